@@ -11,7 +11,7 @@ Model driver for engine `room` (local path). Same op lines as `harness/room` (se
   restart s=<site>
   sync from=<site> to=<site> r=<room>
 with `mode=fn` in the case header (one database, several caller identities; see harness `bench.rs`):
-  rmut k=<key> d=<date> r=<room> … | robs r=<room>
+  rmut k=<key> d=<date> r=<room> … [g<g>.id=<r2>.<g2>|h<handle>|a<r2>.<i>] | robs r=<room> | rstored r=<room>
   new k= d= h= e= [room=] v= | upd k= d= h= [room=] [v=] | nest k= d= h= [pn=] [room=] [v=] f= c=<entry>+<entry>…
     (entries: the tree below the mutated entity in pre-order, `.` per level; `:f<label>` on an entry that has sub-entities)
   null k= d= h= f= | del k= d= h= | delref k= d= h= f= c= | deladm k= d= r= i=
@@ -91,6 +91,35 @@ def optList {α : Type} (toks : List String) (k : String) (p : String → Option
     | some (x :: t) => some (x :: t)
     | _ => none
 
+/-- `g<g>.id=<x>`: the id of the `sys.Authorisation` entity of slot `g` given explicitly — `<r2>.<g2>`: group `g2`
+    of room `r2` (must exist); `h<handle>`: a data row (must exist); `a<r2>.<i>`: the i-th admin entry of room `r2`
+    (must exist). Rows that are not groups get ids no group has. `none`: malformed; `some none`: no such token. -/
+def explicitGid (w : World) (toks : List String) (g : Nat) : Option (Option Id) :=
+  match kv? toks s!"g{g}.id" with
+  | none => some none
+  | some x =>
+    if x.startsWith "h" then
+      match (x.drop 1).toNat? with
+      | some h => if w.handles.any (·.1 = h) then some (some (500000 + h)) else none
+      | none => none
+    else if x.startsWith "a" then
+      match ((x.drop 1).toString.splitOn ".") with
+      | [r2, i] =>
+        match r2.toNat?, i.toNat? with
+        | some r2, some i =>
+          match ((w.adminIds.filter (·.1 = r2)).map (·.2))[i]? with
+          | some id => some (some (600000 + id))
+          | none => none
+        | _, _ => none
+      | _ => none
+    else
+      match x.splitOn "." with
+      | [r2, g2] =>
+        match r2.toNat?, g2.toNat? with
+        | some r2, some g2 => if w.groups.contains (r2, g2) then some (some (gidOf r2 g2)) else none
+        | _, _ => none
+      | _ => none
+
 def parseGroupsSpec (w : World) (toks : List String) (r : Nat) : Option (List GroupSpec) :=
   match kv? toks "grp" with
   | none => some []
@@ -103,10 +132,12 @@ def parseGroupsSpec (w : World) (toks : List String) (r : Nat) : Option (List Gr
       else
         gs.mapM fun g =>
           match optList toks s!"g{g}.r" parseRList, optList toks s!"g{g}.u" parseUList,
-                optList toks s!"g{g}.ua" parseUList with
-          | some rights, some users, some uas =>
+                optList toks s!"g{g}.ua" parseUList, explicitGid w toks g with
+          | some rights, some users, some uas, some none =>
             some { gid := gidOf r g, isNew := !w.groups.contains (r, g), rights, users, userAdmins := uas }
-          | _, _, _ => none
+          | some rights, some users, some uas, some (some gid) =>
+            some { gid, isNew := false, rights, users, userAdmins := uas }
+          | _, _, _, _ => none
 
 def parseMut (w : World) (toks : List String) (who : String := "s") : Option (Nat × MutSpec × List Nat) :=
   match nat? toks who, int? toks "d", nat? toks "r" with
@@ -183,6 +214,20 @@ def dump (w : World) : String :=
     joinWith "," de ++ "]"
 
 def rooms (w : World) : List Room := match w.site? 0 with | some s => s.mem | none => []
+
+def bit (b : Bool) : String := if b then "1" else "0"
+
+def userRowsStr (w : World) (l : List UserRow) : String :=
+  joinWith "," (sortStr (l.map fun u => s!"{keyStr w u.key}:{u.date}:{bit u.enabled}:{keyStr w u.author}"))
+
+/-- the stored definition of a room as `dv-room`'s `rstored` prints it -/
+def storedStr (w : World) (rr : RoomRow) : String :=
+  let groups := sortStr (rr.groups.map fun g =>
+    let name := if w.groups.contains (g.gid / 1000, g.gid % 1000) then s!"{g.gid / 1000}.{g.gid % 1000}" else "?"
+    let rights := sortStr (g.rights.map fun x =>
+      s!"{x.entity}:{bit (x.mutSelf || x.mutAll)}:{bit x.mutAll}:{x.date}:{keyStr w x.author}")
+    s!"{name}={keyStr w g.author}:{g.mdate}:U[{userRowsStr w g.users}]:R[{joinWith "," rights}]:UA[{userRowsStr w g.userAdmins}]")
+  s!"S {keyStr w rr.author}:{rr.mdate} A[{userRowsStr w rr.admins}] G[{joinWith ";" groups}]"
 
 def finish (w : World) (old : World) (r : Except LocalWrite.MErr Db) : World × String :=
   match r with
@@ -430,7 +475,7 @@ def stepFn (w : World) (kind : String) (rest : List String) : World × String :=
       | .error e => (w, errLine e)
       | .ok st' =>
         let w := w.setSite 0 st'
-        let newGroups := (gidx.filter fun g => !w.groups.contains (m.rid, g)).map fun g => (m.rid, g)
+        let newGroups := (gidx.filter fun g => !w.groups.contains (m.rid, g) && (kv? rest s!"g{g}.id").isNone).map fun g => (m.rid, g)
         let newAdmins := (List.range m.admins.length).map fun i => (m.rid, w.nextId + i)
         let w := { w with nextId := w.nextId + m.size,
                           rooms := if m.isNew then w.rooms ++ [m.rid] else w.rooms,
@@ -448,6 +493,14 @@ def stepFn (w : World) (kind : String) (rest : List String) : World × String :=
             match sb.importRoom w.df cand with
             | .error e => ({ w with peerStopped := true }, "ok peer:" ++ errLine e)
             | .ok sb' => (w.setSite 1 sb', "ok peer:ok")
+  | "rstored" =>
+    match nat? rest "r" with
+    | some r =>
+      if !w.rooms.contains r then (w, "none")
+      else match (w.site? 0).bind (·.getStored r) with
+        | some rr => (w, Fn.storedStr w rr)
+        | none => (w, "none")
+    | none => (w, "bad-op")
   | "robs" =>
     match nat? rest "r" with
     | some r =>
